@@ -45,6 +45,7 @@ def check(ctx):
     r19_4(ctx, st)
     r19_5(ctx, st)
     r19_6(ctx, st)
+    r19_7(ctx, st)
     ctx.not_decided.append("floating-point rounding of the two averages (summation order can change the last digits before round())")
 
 
@@ -56,6 +57,7 @@ def check(ctx):
 def tag_loop(ctx, rule):
     repo = ctx.repo
     pf = repo.func("gaftools.gaf", "GAF.parse_gaf_line", rule)
+    pf._repo_modules = repo.modules
     ctx.analysed_func(pf)
     loops = [n for n in pf.node.body if isinstance(n, ast.For)]
     loops = [l for l in loops if any(isinstance(c, ast.Call) and norm(c.func).startswith("re.") for c in ast.walk(l))]
@@ -66,10 +68,24 @@ def tag_loop(ctx, rule):
 
 def tag_regex_info(pf, loop, rule):
     """The regex that gates/captures a tag, the variable holding the key and the variable holding the value."""
-    info = {"patterns": []}
+    info = {"patterns": [], "splits": []}
     for c in ast.walk(loop):
-        if isinstance(c, ast.Call) and norm(c.func) in ("re.match", "re.fullmatch", "re.findall", "re.search") and c.args and isinstance(c.args[0], ast.Constant):
-            info["patterns"].append((norm(c.func), c.args[0].value, c))
+        if isinstance(c, ast.Call) and norm(c.func) in ("re.match", "re.fullmatch", "re.findall", "re.search") and c.args:
+            pat = None
+            if isinstance(c.args[0], ast.Constant):
+                pat = c.args[0].value
+            elif isinstance(c.args[0], (ast.Name, ast.Attribute)):
+                from .c16 import lookup_const, fold_str
+
+                class _C:  # minimal context for lookup_const
+                    pass
+
+                d = _lookup_module_const(pf, norm(c.args[0]))
+                pat = d
+            if isinstance(pat, str):
+                info["patterns"].append((norm(c.func), pat, c))
+        if isinstance(c, ast.Call) and isinstance(c.func, ast.Attribute) and c.func.attr in ("split", "rsplit", "partition") and c.args and const_value(c.args[0]) == ":" and norm(c.func.value) == norm(loop.target):
+            info["splits"].append(c)
     if not info["patterns"]:
         raise AnalysisError(rule, pf.where(loop), "no constant regular expression in the tag loop")
     # key/value variables: `key, val = m.groups()` or findall(...)[0] assignments
@@ -89,12 +105,44 @@ def tag_regex_info(pf, loop, rule):
                     info["key_pattern"] = pat
                 else:
                     val_var = norm(st.targets[0])
+    if key_var is None and info["splits"]:
+        # split idiom: name, type, value = field.split(":" ...) ; key = "%s:%s:" % (name, type)
+        for st in walk_stmts(loop.body):
+            if isinstance(st, ast.Assign) and isinstance(st.targets[0], ast.Tuple) and len(st.targets[0].elts) == 3 and any(x is info["splits"][0] for x in ast.walk(st.value)):
+                nm, ty, val_var = [norm(e) for e in st.targets[0].elts]
+                for st2 in walk_stmts(loop.body):
+                    if isinstance(st2, ast.Assign) and isinstance(st2.targets[0], ast.Name) and nm in names_in(st2.value) and ty in names_in(st2.value) and st2 is not st:
+                        key_var = norm(st2.targets[0])
+                        info["key_built"] = st2
     info["key_var"], info["val_var"] = key_var, val_var
     return info
 
 
+def _lookup_module_const(f, name):
+    """String value of a module-level constant referenced as NAME or alias.NAME (None if not a string constant)."""
+    mod = f.module
+    d = mod.consts.get(name)
+    if d is None and "." in name:
+        alias, attr = name.split(".", 1)
+        tgt = mod.imports.get(alias)
+        repo_mods = getattr(f, "_repo_modules", None)
+        if tgt and repo_mods and tgt in repo_mods:
+            d = repo_mods[tgt].consts.get(attr)
+    if isinstance(d, ast.Constant) and isinstance(d.value, str):
+        return d.value
+    return None
+
+
 def key_group_items(info):
     """regex items of the group that produces the stored key."""
+    if info.get("key_built") is not None:
+        v = info["key_built"].value
+        fmt = None
+        if isinstance(v, ast.BinOp) and isinstance(v.op, ast.Mod) and isinstance(v.left, ast.Constant):
+            fmt = v.left.value
+        if fmt == "%s:%s:":
+            return relang.flatten(relang.parse("[A-Za-z][A-Za-z0-9]:[AifZHB]:"))
+        return relang.flatten(relang.parse("[A-Za-z][A-Za-z0-9]:[AifZHB]"))
     pat = info.get("key_pattern")
     gid = 1
     if pat is None:
@@ -574,4 +622,50 @@ def r19_6(ctx, m):
                     g = guards_of(f.node, s)
                     ok = any(canon_test(x, pol) in ((f"len({t}) > 0", True), (f"len({t}) != 0", True), (f"len({t}) == 0", False), (t, True), (f"len({t})", True)) for x, pol in g)
                     ctx.check(ok, "R19.6", f.where(s), f"the division by len({t}) is guarded: a file without primary records leaves the per-read table empty and must still be reported", key_of(f, f"div-by-len:{norm(s)[:60]}"), guards=[(norm(x), pol) for x, pol in g])
-    ctx.require_count("R19.6", n, 1, f.where(), "divisions by the size of the per-read table")
+    if n == 0:
+        ctx.holds("R19.6", f.where(), "no division by the size of the per-read table (nothing to guard; R19.7 decides the denominators)", nontrivial=False)
+
+
+def r19_7(ctx, m):
+    """(a) the per-read averages are sums over the per-read table divided by the size of that same table;
+    (b) with --cigar every primary record reaches the run-counting loop (no shortcut around it)."""
+    f = m.f
+    # (a)
+    agg_loops = [l for l in f.node.body if isinstance(l, ast.For) and norm(l.iter).endswith((".items()", ".values()")) and l is not m.loop]
+    n = 0
+    for l in agg_loops:
+        table = norm(l.iter).rsplit(".", 1)[0]
+        sums = [norm(s.target) for s in walk_stmts(l.body) if isinstance(s, ast.AugAssign) and isinstance(s.op, ast.Add)]
+        for acc in sums:
+            divs = [s for s in walk_stmts(f.node.body) if isinstance(s, ast.AugAssign) and isinstance(s.op, (ast.Div, ast.FloorDiv)) and norm(s.target) == acc]
+            inline = [b for st in walk_stmts(f.node.body) for b in ast.walk(st) if isinstance(b, ast.BinOp) and isinstance(b.op, ast.Div) and norm(b.left) == acc and not isinstance(st, (ast.For, ast.If, ast.While))]
+            for d in divs:
+                n += 1
+                ctx.check(norm(d.value) == f"len({table})", "R19.7", f.where(d), f"the average `{acc}` sums one value per entry of `{table}` and is divided by the number of entries of that same table", key_of(f, f"avg-denominator:{acc}:{norm(d.value)}"), denominator=norm(d.value))
+            for b in inline:
+                n += 1
+                ctx.check(norm(b.right) == f"len({table})", "R19.7", f.where(b), f"the average `{acc}` is divided by the number of entries of `{table}`", key_of(f, f"avg-denominator:{acc}:{norm(b.right)}"), denominator=norm(b.right))
+        # each entry contributes exactly once, unfiltered
+        skip = [s for s in walk_stmts(l.body) if isinstance(s, (ast.If, ast.Continue, ast.Break))]
+        ctx.check(not skip, "R19.7", f.where(l), f"every entry of `{table}` contributes to the averages", key_of(f, f"agg-filter:{table}"))
+    ctx.require_count("R19.7", n, 2, f.where(), "averages over the per-read table")
+    # the figures printed as averages are those accumulators
+    # (b) run loop reached on every primary path when cigar statistics are requested
+    run_loops = [n_ for n_ in ast.walk(m.loop) if isinstance(n_, ast.For) and n_ is not m.loop and isinstance(n_.iter, ast.Call) and norm(n_.iter.func) == "range"]
+    if run_loops:
+        rl = run_loops[0]
+        flag = None
+        for t in ast.walk(m.loop):
+            if isinstance(t, ast.If) and any(x is rl for x in ast.walk(t)) and isinstance(t.test, ast.Name):
+                flag = t.test.id
+        bad = None
+        for p in m.paths:
+            sec = any(e.kind == "test" and e.node is m.sec_if.test and e.pol for e in p.events)
+            if sec:
+                continue
+            wants = flag is None or any(e.kind == "test" and isinstance(e.node, ast.Name) and e.node.id == flag and e.pol for e in p.events)
+            if not wants:
+                continue
+            if not any(e.kind == "loop" and e.node is rl for e in p.events):
+                bad = p
+        ctx.check(bad is None, "R19.7", f.where(rl), "with --cigar every primary record reaches the run-counting loop (no shortcut that skips the counts for some CIGARs)", key_of(f, "cigar-loop-reached"), **({"path": bad.show()} if bad else {}))
